@@ -151,19 +151,35 @@ func job(sc scen, cfg vsched.Config) sdrv.Job {
 				case "put":
 					put(50, m.Key)
 				case "putmany":
-					seq++
-					val := fmt.Sprintf("w%d", seq)
-					c, r := h.Tick(), int64(0)
-					err := st.PutMany(ctx, []kvs.Record{{Key: m.Key, Value: []byte(val)}})
-					r = h.Tick()
-					h.AddComplete(kvh.HOp{Thread: 50, Kind: "put", Key: m.Key, Val: val, Err: kvh.ErrClass(err), Call: c, Ret: r, Multi: "putmany"})
-					if cv, ok := cur[m.Key]; ok {
-						stale[m.Key] = cv
+					// m.Key "a" -> [a]; "ab" -> [a,b]; "ba" -> [b,a] (a batch: every key of it must wake its waiters)
+					var ks []string
+					for _, c := range m.Key {
+						ks = append(ks, string(c))
 					}
-					g, _ := st.Get(ctx, m.Key) // learn the new version (the mutator is the only writer)
-					cur[m.Key] = g.Version
-					hi := h.Begin(kvh.HOp{Thread: 50, Kind: "get", Key: m.Key})
-					h.End(hi, string(g.Value), g.Version, "nil")
+					var recs []kvs.Record
+					var vals []string
+					for range ks {
+						seq++
+						vals = append(vals, fmt.Sprintf("w%d", seq))
+					}
+					for i, k := range ks {
+						recs = append(recs, kvs.Record{Key: k, Value: []byte(vals[i])})
+					}
+					c := h.Tick()
+					err := st.PutMany(ctx, recs)
+					r := h.Tick()
+					for i, k := range ks {
+						h.AddComplete(kvh.HOp{Thread: 50 + i, Kind: "put", Key: k, Val: vals[i], Err: kvh.ErrClass(err), Call: c, Ret: r, Multi: "putmany"})
+						if cv, ok := cur[k]; ok {
+							stale[k] = cv
+						}
+					}
+					for _, k := range ks {
+						g, _ := st.Get(ctx, k) // learn the new version (the mutator is the only writer)
+						cur[k] = g.Version
+						hi := h.Begin(kvh.HOp{Thread: 50, Kind: "get", Key: k})
+						h.End(hi, string(g.Value), g.Version, "nil")
+					}
 				case "casok", "casbad":
 					seq++
 					val := fmt.Sprintf("w%d", seq)
@@ -322,7 +338,8 @@ func main() {
 	fine := vsched.Mask(vsched.KLock, vsched.KChan, vsched.KStep, vsched.KEnv, vsched.KSleep)
 	var jobs []sdrv.Job
 	onA := []mop{{"put", "a"}, {"putmany", "a"}, {"casok", "a"}, {"casbad", "a"}, {"delete", "a"}, {"create", "a"}}
-	onAB := append(append([]mop{}, onA...), mop{"put", "b"}, mop{"delete", "b"})
+	onAB := append(append([]mop{}, onA...), mop{"put", "b"}, mop{"delete", "b"}, mop{"putmany", "ab"}, mop{"putmany", "ba"})
+	onA8 := append(append([]mop{}, onA...), mop{"putmany", "ab"}, mop{"putmany", "ba"})
 	vers := []string{"current", "stale", "never"}
 	P := 3
 	add := func(be string, ws []waiter, muts [][]mop, cancels []int, p int) {
@@ -342,6 +359,8 @@ func main() {
 	// one waiter
 	for _, v := range vers {
 		add("inmem", []waiter{{"a", v}}, seqs(onA, 3), []int{0, 1}, P)
+		add("inmem", []waiter{{"a", v}}, seqs(onA8[6:], 1), []int{0}, P)
+		add("inmem", []waiter{{"b", v}}, seqs(onA8[6:], 1), []int{0}, P)
 	}
 	// two waiters
 	pairs := [][]waiter{
@@ -351,6 +370,7 @@ func main() {
 	for _, ws := range pairs {
 		add("inmem", ws, seqs(onA, mlen), []int{0, 1, 3}, P)
 	}
+	add("inmem", []waiter{{"a", "current"}, {"b", "current"}}, seqs(onA8[6:], 2), []int{0, 1}, P)
 	add("inmem", []waiter{{"a", "current"}, {"b", "current"}}, seqs(onAB, mlen), []int{0, 1, 3}, P)
 	if run.Thorough() {
 		add("inmem", []waiter{{"a", "getwait"}, {"b", "getwait"}}, seqs(onAB, 2), []int{0, 1, 3}, P)
